@@ -132,9 +132,13 @@ func LoopElem(info *types.Info, loop *ast.RangeStmt, e ast.Expr) bool {
 	}
 	if ix, ok := e.(*ast.IndexExpr); ok && loop.Key != nil {
 		ko := ObjOf(info, loop.Key)
-		xo := ObjOf(info, loop.X)
-		if ko != nil && xo != nil && ObjOf(info, ix.Index) == ko && ObjOf(info, ix.X) == xo {
-			return true
+		if ko != nil && ObjOf(info, ix.Index) == ko {
+			if xo := ObjOf(info, loop.X); xo != nil && ObjOf(info, ix.X) == xo {
+				return true
+			}
+			if SameExpr(info, ix.X, loop.X) {
+				return true
+			}
 		}
 	}
 	return false
@@ -181,4 +185,36 @@ func ElemAliases(info *types.Info, loop *ast.RangeStmt) map[types.Object]bool {
 		}
 	}
 	return out
+}
+
+// EnclosingLoop returns the innermost loop over a slice (range or canonical
+// counting form) of f whose body contains n.
+func (f *Func) EnclosingLoop(n ast.Node) *ast.RangeStmt {
+	var best *ast.RangeStmt
+	for _, l := range f.SliceLoops(f.Node()) {
+		if l.Body.Pos() <= n.Pos() && n.End() <= l.Body.End() {
+			if best == nil || l.Body.Pos() >= best.Body.Pos() {
+				best = l
+			}
+		}
+	}
+	return best
+}
+
+// LoopElemVar returns the variable that names the element of loop in its body:
+// the value variable, or the single local defined as X[key]; nil if there is none.
+func LoopElemVar(info *types.Info, loop *ast.RangeStmt) types.Object {
+	if loop.Value != nil {
+		return ObjOf(info, loop.Value)
+	}
+	var out types.Object
+	n := 0
+	for o := range ElemAliases(info, loop) {
+		out = o
+		n++
+	}
+	if n == 1 {
+		return out
+	}
+	return nil
 }
